@@ -39,6 +39,15 @@ CXX_EXTRA = ["-fno-sanitize=undefined", "-g1"]
 
 F7_SIG = "F7-eig-segment-N=d+skip"
 
+# KLTSA on neighbourhoods that span fewer than target_dimension directions (wave 4 observation, reported to the
+# coordinator with fixes/F51c08_kltsa_orthogonalize_tangent_basis.patch): tangent_weight_matrix uses the arbitrary
+# null vectors the local solver returns as tangent columns without orthogonalising them against the constant
+# column, so I - G G^T is not a projector there.  False: counted (histogram counters ltsa_rankdef_*), never a
+# verdict.  True (once the repair is in the tree): the clause of check_null_space is a verdict for KLTSA exactly
+# as it is for HLLE.
+LTSA_RANKDEF_ENFORCED = False
+LTSA_RANKDEF_SIG = "C08-kltsa-rank-deficient-neighbourhood"
+
 TRUSTED = [
     "hand-written model Lle_Model.v tied by differential testing on the public routine templates (not a proof about the C++ text)",
     "oracles (modelled, contract checked per observed call): Eigen ldlt().solve (replaced by certifying Gaussian "
@@ -868,11 +877,11 @@ def well_formed(nbrs, n, meth="lle", d=0):
     return meth == "lle" or d <= k
 
 
-def hlle_conditioning(Vrows, k, d):
+def hlle_conditioning(Vrows, k, d, products=True):
     """floating-point replay of the Gram-Schmidt loop on one neighbourhood: smallest ratio
     |residual| / |column| over the 1 + d + d(d+1)/2 columns (0 = exactly dependent columns)"""
     cols = [[1.0] * k] + [[float(Vrows[a][t]) for a in range(k)] for t in range(d)]
-    for j in range(d):
+    for j in range(d if products else 0):
         for p in range(d - j):
             cols.append([cols[j + 1][a] * cols[j + p + 1][a] for a in range(k)])
     Q, worst = [], 1.0
@@ -1045,7 +1054,9 @@ class Stats:
                        "model_oob_agree": 0, "exceptions": 0, "f7_seen": 0, "hlle_ill_conditioned": 0, "small_k_rejected": 0, "small_k_threw": 0, "small_k_non_affine": 0, "small_k_affine": 0,
                        "null_const_checked": 0, "null_affine_checked": 0, "null_gs_ill_conditioned": 0,
                        "null_const_ill_conditioned": 0, "null_affine_ill_conditioned": 0,
-                       "rank_deficient_cases": 0, "emb_affine_rank_deficient_checked": 0}
+                       "rank_deficient_cases": 0, "emb_affine_rank_deficient_checked": 0,
+                       "ltsa_rankdef_const_observed": 0, "ltsa_rankdef_affine_observed": 0,
+                       "ltsa_rankdef_violated": 0}
         self.samples = []
         self.heavy = {"heavy_d3": 1, "heavy_d4": 0}   # exact HLLE model runs with 10 / 15 Gram-Schmidt columns
         self.worst_affine = 0.0   # largest affine residual / its tolerance
@@ -1323,26 +1334,47 @@ def check_null_space(ctx, c, nb, mats, M, stats):
                 cond_nz = max(cond_nz, top / lr) if (lr > 0 and noise * 1024 <= lr) else float("inf")
     def apply(v):
         return max(abs(sum(M[i][j] * v[j] for j in range(n)) - mu * v[i]) for i in range(n))
+
+    # KLTSA with a selected local eigenvalue that is zero (rank-deficient neighbourhood): see LTSA_RANKDEF_ENFORCED
+    observed = meth == "ltsa" and (deficient or cond_all == float("inf") or
+                                   NULL_SAFETY * n * k * EPS * cond_all > 1e-4)
+    if observed:
+        E = mats.get("Eloc")
+        if not finite(E) or len(E) != n * k:
+            return
+        gs = min(hlle_conditioning([E[i * k + a][k - d:] for a in range(k)], k, d, products=False) for i in range(n))
+        if gs < 1e-4:
+            stats.counts["null_gs_ill_conditioned"] += 1
+            return
+
+    def report(what):
+        if not observed:
+            ctx.violation(slim(c), what)
+        elif LTSA_RANKDEF_ENFORCED:
+            ctx.violation(slim(c), what, signature=LTSA_RANKDEF_SIG)
+        else:
+            stats.counts["ltsa_rankdef_violated"] += 1
     # --- constants
-    if meth == "hlle":
+    if meth == "hlle" or observed:
         tol1 = NULL_SAFETY * n * k * EPS / gs
     else:
         tol1 = NULL_SAFETY * n * k * EPS * cond_all
     if tol1 <= 1e-4:
         r1 = apply([Fraction(1)] * n)
-        stats.counts["null_const_checked"] += 1
-        stats.worst_null = max(stats.worst_null, float(r1) / tol1)
+        stats.counts["ltsa_rankdef_const_observed" if observed else "null_const_checked"] += 1
+        if not (observed and not LTSA_RANKDEF_ENFORCED):
+            stats.worst_null = max(stats.worst_null, float(r1) / tol1)
         if r1 > Fraction(tol1):
-            ctx.violation(slim(c), "assembled %s matrix does not map the constant vector to %s: |M 1 - mu 1| = %.3e > %.1e "
-                                   "(the local estimator / projector is not orthogonal to constants%s)"
-                          % (meth, "shift * 1" if mu else "0", float(r1), tol1,
-                             "; some neighbourhoods span fewer than d directions" if deficient else ""))
+            report("assembled %s matrix does not map the constant vector to %s: |M 1 - mu 1| = %.3e > %.1e "
+                   "(the local estimator / projector is not orthogonal to constants%s)"
+                   % (meth, "shift * 1" if mu else "0", float(r1), tol1,
+                      "; some neighbourhoods span fewer than d directions" if deficient else ""))
     else:
         stats.counts["null_const_ill_conditioned"] += 1
     # --- affine functions of the intrinsic coordinates on flat data
-    if rks is None or (meth == "ltsa" and deficient):
+    if rks is None:
         return
-    cnd = cond_nz if meth == "hlle" else cond_all
+    cnd = cond_nz if (meth == "hlle" or observed) else cond_all
     tol2 = NULL_SAFETY * n * k * EPS * (cnd + 1.0 / gs)
     if not tol2 <= 1e-4:
         stats.counts["null_affine_ill_conditioned"] += 1
@@ -1354,13 +1386,14 @@ def check_null_space(ctx, c, nb, mats, M, stats):
         m = sum(col) / n
         sc = max(abs(v - m) for v in col) or Fraction(1)
         r2 = max(r2, apply([(v - m) / sc for v in col]))
-    stats.counts["null_affine_checked"] += 1
-    stats.worst_null = max(stats.worst_null, float(r2) / tol2)
+    stats.counts["ltsa_rankdef_affine_observed" if observed else "null_affine_checked"] += 1
+    if not (observed and not LTSA_RANKDEF_ENFORCED):
+        stats.worst_null = max(stats.worst_null, float(r2) / tol2)
     if r2 > Fraction(tol2):
-        ctx.violation(slim(c), "samples lie on a %d-flat but the assembled %s matrix does not annihilate the affine "
-                               "functions of the intrinsic coordinates: |M x - mu x| = %.3e > %.1e%s"
-                      % (d, meth, float(r2), tol2,
-                         " (some neighbourhoods span fewer than d directions)" if deficient else ""))
+        report("samples lie on a %d-flat but the assembled %s matrix does not annihilate the affine "
+               "functions of the intrinsic coordinates: |M x - mu x| = %.3e > %.1e%s"
+               % (d, meth, float(r2), tol2,
+                  " (some neighbourhoods span fewer than d directions)" if deficient else ""))
 
 
 def affine_residual(X, ycol):
